@@ -174,6 +174,9 @@ def frame_is_hot(frame):
             return True
         if ln["names"].intersection(code.co_names):
             return True
+        # ... or reaches it through a string constant (vars(module).setdefault("name", ...), getattr(obj, "name"))
+        if ln["names"].intersection(c for c in code.co_consts if isinstance(c, str)):
+            return True
     cache = _shared["code_hot"]
     static = cache.get(code)
     if static is None:
